@@ -24,6 +24,13 @@ def gen_ws_case(rng):
             payloads.append(p)
     if rng.chance(0.15):
         frames.append("c")
+    # a failure of the websocket: a malformed frame in the middle (reported once, the stream goes on) or the end of the stream
+    if rng.chance(0.35):
+        if rng.chance(0.5) and "c" not in frames:
+            k = rng.randint(0, len(frames))
+            frames.insert(k, "xx8300")
+        else:
+            frames.append("e")
     total = sum(len(p) for p in payloads)
     calls = []
     bufs = rng.choice([[4096], [4096], [1, 2, 3], [7, 64], [1], [4096, 100], [3, 4096, 1]])
@@ -64,6 +71,17 @@ def suite_ws(report, tier, seed, prop="C13"):
         got = b""
         calls = req.split("calls=")[1].split(",")
         bad = None
+        # failure points of the framed stream: the payload bytes that precede each of them
+        specs = [x for x in req.split("frames=")[1].split(" ")[0].split(",") if x]
+        before, fails = 0, []
+        for sp in specs:
+            if sp[0] in "bt":
+                before += len(unhex(sp[1:])) if len(sp) > 1 else 0
+            elif sp[0] == "x":
+                fails.append(("once", before))
+            elif sp[0] == "e":
+                fails.append(("eof", before))
+        nerr = 0
         for call, r in zip(calls, fa.get("reads", "").split(",")):
             buf = int(call.split("@")[0])
             if r.startswith("ok:"):
@@ -73,6 +91,16 @@ def suite_ws(report, tier, seed, prop="C13"):
                 got += chunk
             elif r == "wouldblock":
                 report.count("ws.wouldblock")
+            elif r == "err" and fails:
+                report.count("ws.err")
+                kind, need = fails[min(nerr, len(fails) - 1)]
+                if nerr < len(fails) - 1 or (kind == "once" and nerr == len(fails) - 1) or (kind == "eof" and nerr >= len(fails) - 1):
+                    pass
+                if len(got) < need:
+                    bad = ("bytes-lost-to-failure", f"the failure of the websocket was reported after {len(got)} payload bytes although {need} bytes of "
+                                                    f"messages had arrived before it: they were dropped in favour of the error")
+                if kind == "once":
+                    nerr += 1
             else:
                 bad = ("read-error", f"a read returned {r[:40]}")
             if bad:
